@@ -72,6 +72,7 @@ Inductive pc :=
 | S_load (byname : bool) (todo : list msg)          (* "send.load": table load *)
 | S_alive (byname : bool) (m : msg) (todo : list msg) (* "send.alive": state load *)
 | S_push (byname : bool) (m : msg) (todo : list msg)  (* "send.push": head swap *)
+| S_lim (byname : bool) (m : msg) (todo : list msg)   (* "mpsc.limit": bounded queue: length check, then head swap *)
 | S_link (byname : bool) (m : msg) (todo : list msg)  (* "mpsc.link": link store *)
 | S_cas (byname : bool) (todo : list msg)           (* "run.cas": CAS Sleep->Running *)
 | S_spawn (byname : bool) (todo : list msg)         (* "run.spawn": go func *)
@@ -108,6 +109,7 @@ Inductive pc :=
 (* node.spawn: the process is created in state Init, its name (if any) already registered *)
 | P_init (sends : list msg) (ok : bool)             (* "spawn.init": calls ProcessInit *)
 | P_cb (sends : list msg) (ok : bool)               (* inside ProcessInit; next self-send or return *)
+| P_lim (m : msg) (sends : list msg) (ok : bool)    (* "mpsc.limit" of a self-send *)
 | P_link (m : msg) (sends : list msg) (ok : bool)   (* "mpsc.link" of a self-send *)
 | P_selfcas (sends : list msg) (ok : bool)          (* "run.cas" of a self-send (fails: state Init) *)
 | P_selfspawn (sends : list msg) (ok : bool)        (* "run.spawn" (unreachable, see proofs) *)
@@ -122,6 +124,9 @@ Record shared := mk_sh {
   intable : bool;          (* n.processes has the pid *)
   innames : bool;          (* n.names has the registered name *)
   qs : queues;
+  limit : nat;             (* ProcessOptions.MailboxSize; 0 = unbounded queues *)
+  fbon : bool;             (* a fallback process (other than itself) is configured *)
+  fbs : list nat;          (* ghost: ids re-routed to the fallback process, wrapped in MessageFallback *)
   (* ghost / observation state *)
   fin : bool;              (* some Swap(Terminated) has returned a value <> Terminated *)
   initfail : bool;         (* ProcessInit returned an error: the process never existed *)
@@ -136,28 +141,30 @@ Record shared := mk_sh {
 Record cfg := mk_cfg { sh : shared; thr : list pc }.
 
 Definition upd_st (s : shared) (x : pstate) : shared :=
-  mk_sh x (intable s) (innames s) (qs s) (fin s) (initfail s) (killed s) (handled s) (oks s) (errs s) (terms s) (treason s).
+  mk_sh x (intable s) (innames s) (qs s) (limit s) (fbon s) (fbs s) (fin s) (initfail s) (killed s) (handled s) (oks s) (errs s) (terms s) (treason s).
 Definition upd_qs (s : shared) (x : queues) : shared :=
-  mk_sh (st s) (intable s) (innames s) x (fin s) (initfail s) (killed s) (handled s) (oks s) (errs s) (terms s) (treason s).
+  mk_sh (st s) (intable s) (innames s) x (limit s) (fbon s) (fbs s) (fin s) (initfail s) (killed s) (handled s) (oks s) (errs s) (terms s) (treason s).
 Definition upd_intable (s : shared) (x : bool) : shared :=
-  mk_sh (st s) x (innames s) (qs s) (fin s) (initfail s) (killed s) (handled s) (oks s) (errs s) (terms s) (treason s).
+  mk_sh (st s) x (innames s) (qs s) (limit s) (fbon s) (fbs s) (fin s) (initfail s) (killed s) (handled s) (oks s) (errs s) (terms s) (treason s).
 Definition upd_innames (s : shared) (x : bool) : shared :=
-  mk_sh (st s) (intable s) x (qs s) (fin s) (initfail s) (killed s) (handled s) (oks s) (errs s) (terms s) (treason s).
+  mk_sh (st s) (intable s) x (qs s) (limit s) (fbon s) (fbs s) (fin s) (initfail s) (killed s) (handled s) (oks s) (errs s) (terms s) (treason s).
 Definition add_handled (s : shared) (i : nat) : shared :=
-  mk_sh (st s) (intable s) (innames s) (qs s) (fin s) (initfail s) (killed s) (handled s ++ [i]) (oks s) (errs s) (terms s) (treason s).
+  mk_sh (st s) (intable s) (innames s) (qs s) (limit s) (fbon s) (fbs s) (fin s) (initfail s) (killed s) (handled s ++ [i]) (oks s) (errs s) (terms s) (treason s).
 Definition add_ok (s : shared) (i : nat) : shared :=
-  mk_sh (st s) (intable s) (innames s) (qs s) (fin s) (initfail s) (killed s) (handled s) (oks s ++ [i]) (errs s) (terms s) (treason s).
+  mk_sh (st s) (intable s) (innames s) (qs s) (limit s) (fbon s) (fbs s) (fin s) (initfail s) (killed s) (handled s) (oks s ++ [i]) (errs s) (terms s) (treason s).
 Definition add_err (s : shared) (i : nat) : shared :=
-  mk_sh (st s) (intable s) (innames s) (qs s) (fin s) (initfail s) (killed s) (handled s) (oks s) (errs s ++ [i]) (terms s) (treason s).
+  mk_sh (st s) (intable s) (innames s) (qs s) (limit s) (fbon s) (fbs s) (fin s) (initfail s) (killed s) (handled s) (oks s) (errs s ++ [i]) (terms s) (treason s).
+Definition add_fb (s : shared) (i : nat) : shared :=
+  mk_sh (st s) (intable s) (innames s) (qs s) (limit s) (fbon s) (fbs s ++ [i]) (fin s) (initfail s) (killed s) (handled s) (oks s) (errs s) (terms s) (treason s).
 Definition add_term (s : shared) : shared :=
-  mk_sh (st s) (intable s) (innames s) (qs s) (fin s) (initfail s) (killed s) (handled s) (oks s) (errs s) (S (terms s)) (treason s).
+  mk_sh (st s) (intable s) (innames s) (qs s) (limit s) (fbon s) (fbs s) (fin s) (initfail s) (killed s) (handled s) (oks s) (errs s) (S (terms s)) (treason s).
 Definition set_killed (s : shared) : shared :=
-  mk_sh (st s) (intable s) (innames s) (qs s) (fin s) (initfail s) true (handled s) (oks s) (errs s) (terms s) (treason s).
+  mk_sh (st s) (intable s) (innames s) (qs s) (limit s) (fbon s) (fbs s) (fin s) (initfail s) true (handled s) (oks s) (errs s) (terms s) (treason s).
 Definition set_initfail (s : shared) : shared :=
-  mk_sh (st s) (intable s) false (qs s) (fin s) true (killed s) (handled s) (oks s) (errs s) (terms s) (treason s).
+  mk_sh (st s) (intable s) false (qs s) (limit s) (fbon s) (fbs s) (fin s) true (killed s) (handled s) (oks s) (errs s) (terms s) (treason s).
 (* Swap(Terminated) that found a value <> Terminated: this goroutine is the finaliser *)
 Definition finalise (s : shared) (r : Z) : shared :=
-  mk_sh Terminated (intable s) (innames s) (qs s) true (initfail s) (killed s) (handled s) (oks s) (errs s) (terms s) (Some r).
+  mk_sh Terminated (intable s) (innames s) (qs s) (limit s) (fbon s) (fbs s) true (initfail s) (killed s) (handled s) (oks s) (errs s) (terms s) (Some r).
 
 Definition next_send (byname : bool) (todo : list msg) : pc :=
   match todo with [] => Done | _ => S_load byname todo end.
@@ -181,7 +188,15 @@ Definition step_pc (s : shared) (p : pc) : option (shared * pc * option pc) :=
       if alive (st s) then Some (s, S_push b m todo, None)
       else Some (add_err s (mid m), next_send b todo, None)
   | S_push b m todo =>
-      Some (upd_qs s (qset (qs s) (mq m) (qget (qs s) (mq m) ++ [(m, false)])), S_link b m todo, None)
+      match limit s with
+      | O => Some (upd_qs s (qset (qs s) (mq m) (qget (qs s) (mq m) ++ [(m, false)])), S_link b m todo, None)
+      | S _ => Some (s, S_lim b m todo, None)
+      end
+  | S_lim b m todo =>
+      (* queueLimitMPSC.Push: if q.Len()+1 > q.limit -> false; RouteSend*: fallback re-route or error *)
+      if Nat.leb (limit s) (length (qget (qs s) (mq m)))
+      then Some ((if fbon s then add_fb s (mid m) else add_err s (mid m)), next_send b todo, None)
+      else Some (upd_qs s (qset (qs s) (mq m) (qget (qs s) (mq m) ++ [(m, false)])), S_link b m todo, None)
   | S_link b m todo =>
       Some (add_ok (upd_qs s (qset (qs s) (mq m) (mark_linked (mid m) (qget (qs s) (mq m))))) (mid m),
             S_cas b todo, None)
@@ -246,7 +261,15 @@ Definition step_pc (s : shared) (p : pc) : option (shared * pc * option pc) :=
   | P_init sends ok => Some (s, P_cb sends ok, None)
   | P_cb (m :: sends) ok =>
       (* self-send during init (process.SendPID to == p.pid): push on its own mailbox, then run() *)
-      Some (upd_qs s (qset (qs s) (mq m) (qget (qs s) (mq m) ++ [(m, false)])), P_link m sends ok, None)
+      match limit s with
+      | O => Some (upd_qs s (qset (qs s) (mq m) (qget (qs s) (mq m) ++ [(m, false)])), P_link m sends ok, None)
+      | S _ => Some (s, P_lim m sends ok, None)
+      end
+  | P_lim m sends ok =>
+      (* a full mailbox refuses the self-send (ErrProcessMailboxFull, no fallback on this path) *)
+      if Nat.leb (limit s) (length (qget (qs s) (mq m)))
+      then Some (add_err s (mid m), P_cb sends ok, None)
+      else Some (upd_qs s (qset (qs s) (mq m) (qget (qs s) (mq m) ++ [(m, false)])), P_link m sends ok, None)
   | P_cb [] true => Some (s, P_sleep, None)
   | P_cb [] false => Some (set_initfail s, Done, None)
   | P_link m sends ok =>
@@ -295,7 +318,7 @@ Fixpoint run (sched : list nat) (c : cfg) : cfg :=
 Definition open_cb (p : pc) : bool :=
   match p with
   | R_cb _ _ | R_call _ _ | R_w1 _ _ | R_w2 _ _ | R_w3 _ _ | R_term _ | T_term
-  | P_cb _ _ | P_link _ _ _ | P_selfcas _ _ | P_selfspawn _ _ => true
+  | P_cb _ _ | P_lim _ _ _ | P_link _ _ _ | P_selfcas _ _ | P_selfspawn _ _ => true
   | _ => false
   end.
 
@@ -304,7 +327,7 @@ Definition holder_pre (p : pc) : bool :=
   match p with
   | S_spawn _ _ | P_spawn | R_start | R_next | R_state | R_pop _ | R_cb _ _ | R_call _ _ | R_w1 _ _ | R_w2 _ _ | R_w3 _ _
   | R_sleep | R_swapT _ | K_swapT
-  | P_init _ _ | P_cb _ _ | P_link _ _ _ | P_selfcas _ _ | P_selfspawn _ _ | P_sleep => true
+  | P_init _ _ | P_cb _ _ | P_lim _ _ _ | P_link _ _ _ | P_selfcas _ _ | P_selfspawn _ _ | P_sleep => true
   | _ => false
   end.
 (* owns the process after the finalising swap *)
@@ -321,14 +344,14 @@ Definition quiescent (c : cfg) : bool := forallb is_done (thr c).
 
 (* initial configuration: a process being spawned (possibly registered under a name, possibly
    sending to itself during init), any number of sender and killer goroutines *)
-Definition init_shared (named : bool) : shared :=
-  mk_sh Init false named qs_empty false false false [] [] [] 0 None.
+Definition init_shared (named : bool) (lim : nat) (fb : bool) : shared :=
+  mk_sh Init false named qs_empty lim fb [] false false false [] [] [] 0 None.
 
 Definition init_pc (p : pc) : bool :=
   match p with S_load _ _ | K_load => true | _ => false end.
 
-Definition init_cfg (named : bool) (selfsends : list msg) (initok : bool) (others : list pc) : cfg :=
-  mk_cfg (init_shared named) (P_init selfsends initok :: others).
+Definition init_cfg (named : bool) (lim : nat) (fb : bool) (selfsends : list msg) (initok : bool) (others : list pc) : cfg :=
+  mk_cfg (init_shared named lim fb) (P_init selfsends initok :: others).
 
 (* ---- observation used by the correspondence check ---------------------------------- *)
 Definition st_code (s : pstate) : Z :=
